@@ -167,15 +167,51 @@ def _expr_type_hint(fn, t, inner):
     return None
 
 
+_FLIP = {"Gt": "Lt", "Lt": "Gt", "Ge": "Le", "Le": "Ge", "Eq": "Eq", "Ne": "Ne"}
+_NEG = {"Gt": "Le", "Le": "Gt", "Lt": "Ge", "Ge": "Lt", "Eq": "Ne", "Ne": "Eq"}
+
+
+def equivalent_forms(atom, outcome):
+    """the logically equivalent ways of writing `atom evaluated to outcome` for a comparison: operands swapped
+    (a > b ≡ b < a), the comparison negated with the other outcome (¬(a >= b) ≡ a < b), and eq/ne calls exchanged.
+    A rule written for one spelling of a guard accepts every other spelling of the same fact."""
+    out = [(atom, outcome)]
+    if not isinstance(outcome, bool):
+        return out
+    if atom[0] == "binop" and atom[1] in _FLIP and len(atom) >= 4:
+        op, l, r = atom[1], atom[2], atom[3]
+        rest = tuple(atom[4:])
+        out.append((("binop", _FLIP[op], r, l) + rest, outcome))
+        out.append((("binop", _NEG[op], l, r) + rest, not outcome))
+        out.append((("binop", _FLIP[_NEG[op]], r, l) + rest, not outcome))
+    elif atom[0] == "call" and len(atom) >= 4:
+        n = atom[1]
+        base = strip_generics(n)
+        if base.endswith("::eq") or base.endswith("::ne"):
+            other = n[:n.rfind("::")] + ("::ne" if base.endswith("::eq") else "::eq")
+            out.append((("call", other) + tuple(atom[2:]), not outcome))
+            if len(atom[2]) == 2:
+                sw = (atom[2][1], atom[2][0])
+                out.append((("call", n, sw) + tuple(atom[3:]), outcome))
+                out.append((("call", other, sw) + tuple(atom[3:]), not outcome))
+    return out
+
+
 def guard_edges(P, fn, pred):
-    """edges (b, tgt) of switch blocks for which pred(atom, outcome, bb) is true"""
+    """edges (b, tgt) of switch blocks for which pred(atom, outcome, bb) is true — for the atom as written or any
+    logically equivalent spelling of it (equivalent_forms)"""
     edges = set()
     for b in fn.live_blocks():
         if fn.term(b)["k"] != "switch":
             continue
         for (tgt, atom, outcome) in switch_edges(P, fn, b):
-            if pred(atom, outcome, b):
-                edges.add((b, tgt))
+            for (a2, o2) in equivalent_forms(atom, outcome):
+                try:
+                    if pred(a2, o2, b):
+                        edges.add((b, tgt))
+                        break
+                except (IndexError, TypeError):
+                    continue
     return edges
 
 
